@@ -83,6 +83,36 @@ for step in (1.0, 0.2, 0.1):
             bad.append("%s, time step %g fs: reorganisation energy recovered from the data %.5g differs from the declared 30"
                        % (ftype, step, got))
 
+# ---- stored parameters are the object's own: optional keys survive a rebuild, the caller's dictionary is not shared -----------------
+try:
+    for nm_ in (3, 40):
+        with qr.energy_units("1/cm"):
+            pa_ = dict(ftype="OverdampedBrownian", reorg=30.0, cortime=80.0, T=77.0, matsubara=nm_)
+            pb_ = dict(ftype="OverdampedBrownian", reorg=50.0, cortime=120.0, T=77.0)
+            a_, b_ = CorrelationFunction(t, pa_), CorrelationFunction(t, pb_)
+        check("explicit number of Matsubara terms (%d): a + b" % nm_, a_ + b_, [a_, b_])
+        check("explicit number of Matsubara terms (%d): b + a" % nm_, b_ + a_, [a_, b_])
+        with qr.energy_units("1/cm"):
+            c_ = CorrelationFunction(t, dict(pa_))
+        c_ += c_
+        if not close(c_.data, 2 * a_.data):
+            bad.append("explicit number of Matsubara terms (%d): a function added to itself in place is not twice the function" % nm_)
+        if pa_.get("matsubara") != nm_ or len(pa_) != 5:
+            bad.append("constructing a correlation function changed the caller's parameter dictionary: %r" % (pa_,))
+    with qr.energy_units("int"):
+        fac_ = 0.0001883651567308853
+        pd_ = dict(ftype="OverdampedBrownian", reorg=30.0 * fac_, cortime=80.0, T=300.0)
+        a_ = CorrelationFunction(t, pd_)
+        da_, la_ = a_.data.copy(), a_.lamb
+        pd_["reorg"] = 90.0 * fac_          # the caller goes on using its dictionary
+        b_ = CorrelationFunction(t, pd_)
+        s_ = a_ + b_
+    if not close(s_.data, da_ + b_.data) or abs(s_.lamb - (la_ + b_.lamb)) > 1e-12 * abs(la_ + b_.lamb):
+        bad.append("a function built in internal units changes when the caller modifies the dictionary it was built from: "
+                   "sum has reorganisation energy %.6g, components %.6g" % (s_.lamb, la_ + b_.lamb))
+except Exception as ex_:      # noqa
+    bad.append("parameter-ownership part raised %s: %s" % (type(ex_).__name__, str(ex_)[:100]))
+
 # ---- spectral densities: sums inside and outside an energy-units context, in-place addition of a function to itself -----------------
 SDTYPES = ("OverdampedBrownian", "UnderdampedBrownian")
 ta = TimeAxis(0.0, 400, 2.0)
